@@ -58,7 +58,7 @@ def run_native(exe, fns, inputs=None, seed=1, perturb=None, derivs=None, timeout
         for t in tmp:
             try: os.unlink(t)
             except OSError: pass
-    res = {'rc': rc, 'asserts': {}, 'outs': {}, 'derivs': [], 'sites': [], 'reach': [], 'stderr': err[-1500:], 'crash': None}
+    res = {'rc': rc, 'asserts': {}, 'outs': {}, 'derivs': [], 'sites': [], 'reach': [], 'stderr': err[-1500:], 'crash': None, 'assume_false': 'ASSUME-FALSE' in out}
     for line in out.splitlines():
         p = line.split(' ')
         if p[0] == 'ASSERT':
